@@ -129,6 +129,7 @@ def laws(I):
     return rot(ax, r), ax * np.dot(r, r)
   yield 'L10', 'rotation about s fixes s: rotate(s, qra(s,th)) = |q|^2 s', 'brax.math.quat_rot_axis', qra_rot_fixes_axis
 
+  I.generic_branches = True       # the numpy twins are host code: a tolerance / equality test on symbolic data is generic
   yield 'L11', 'rotate_np == rotate', 'brax.math.rotate_np', lambda: (
       I.apply(fn(MA, 'rotate_np'), [v, q], {}), rot(v, q))
   yield 'L11', 'quat_mul_np == quat_mul', 'brax.math.quat_mul_np', lambda: (
